@@ -418,6 +418,23 @@ fn try_parser_for_extension<'p>(
     parsers.get(ext)
 }
 
+/// Verification hook: the registered extensions that share the grammar chosen for `file_path`.
+#[cfg(feature = "verif_hooks")]
+pub fn verif_parser_class(
+    file_path: &Path,
+    parsers: &HashMap<OsString, LanguageParser>,
+    extra_file_extensions: &HashMap<OsString, OsString>,
+) -> Option<Vec<String>> {
+    let parser = parser_for_file_path(file_path, parsers, extra_file_extensions)?;
+    let mut class: Vec<String> = parsers
+        .iter()
+        .filter(|(_, p)| std::rc::Rc::ptr_eq(p, parser))
+        .map(|(ext, _)| ext.to_string_lossy().into_owned())
+        .collect();
+    class.sort();
+    Some(class)
+}
+
 pub trait FileSystem {
     /// Reads the entire contents of a file into a string.
     fn read_to_string(&self, path: &Path) -> anyhow::Result<String>;
